@@ -30,9 +30,15 @@ U_COLS = [mk("A", ("str", 4), pk=True), mk("B", "i16", null=True)]
 
 def base_entries(rng, long_refs):
     tables = {"T": (T_COLS, [[1, "a", 5], [2, "shared", None], [7, None, -3]]), "U": (U_COLS, [["x", 1], ["shared", None]])}
-    summary = [(2, 30, "Title"), (4, 30, "Ann"), (15, 3, 2), (12, 64, 131000000000000000), (7, 30, "x64;1033")]
-    clsid, entries, expected = msienc.encode_db(rng, 0, 65001, tables, summary, {"Bin": [1, 2, 3]}, long_refs=long_refs)
+    clsid, entries, expected = msienc.encode_db(rng, 0, 65001, tables, BASE_SUMMARY, {"Bin": [1, 2, 3]}, long_refs=long_refs)
     return clsid, [(n, bytearray(b)) for n, b in entries]
+
+
+BASE_SUMMARY = [(2, 30, "Title"), (4, 30, "Ann"), (15, 3, 2), (12, 64, 131000000000000000), (7, 30, "x64;1033"),
+                (9, 30, "{12345678-90AB-CDEF-0123-456789ABCDEF}")]
+# well-formed property sets whose VALUES are not what the getters expect (uuid(), arch(), languages(), word_count() ...)
+ODD_TEXT = ["", "{", "}", "{}", "{{", "}{", "{\u00e9", "{12345678\u00e9", "{" + "F" * 36, "{12345678-90AB-CDEF-0123-456789ABCDE}", "\u00e9",
+            ";", ";;", "x;", ";1033", "x;1,2,,3", "x;99999999999", "x;-1", "x;1033;1036", "x;\u00e9", ",", "\x00", "a\x00b"]
 
 
 def probe_cmds():
@@ -102,6 +108,17 @@ def corruptions(rng, entries, long_refs):
             d = bytearray(sb)
             d[idx + 4:idx + 8] = struct.pack("<I", v)
             yield "pslen=%x" % v, None, with_stream(si, d)
+    # odd but well-formed values: every string property in turn, and string properties stored with another type
+    for pid in (2, 3, 4, 6, 7, 9, 18):
+        for k, txt in enumerate(ODD_TEXT):
+            props = [q for q in BASE_SUMMARY if q[0] != pid] + [(pid, 30, txt)]
+            yield "psval%d-%d" % (pid, k), None, with_stream(si, msienc.encode_summary(rng, props, 65001))
+        for ty, v in ((3, 7), (2, -1), (64, 5), (0, None)):
+            props = [q for q in BASE_SUMMARY if q[0] != pid] + [(pid, ty, v)]
+            yield "pstype%d-%d" % (pid, ty), None, with_stream(si, msienc.encode_summary(rng, props, 65001))
+    for pid, ty, v in ((15, 30, "two"), (12, 30, "now"), (12, 3, 5), (1, 30, "1252"), (1, 3, 1252), (15, 2, -1)):
+        props = [q for q in BASE_SUMMARY if q[0] != pid] + [(pid, ty, v)]
+        yield "pstype%d-%d" % (pid, ty), None, with_stream(si, msienc.encode_summary(rng, props, 65001))
     yield "clsid", [0] * 16, [(m, bytes(x)) for m, x in entries]
     yield "clsid2", list(range(16)), [(m, bytes(x)) for m, x in entries]
 
